@@ -26,10 +26,10 @@ package main
 //	oracle          (implementation only) a shadow map in Go (key -> name -> rule text, or absent = removed) predicts the
 //	                same observables independently of the Coq model.
 //
-// Known-finding region the generated stream stays outside of (it has a fixed regression scenario below that runs on
-// every check and is reported with its key):
-//
-//	D8   store/load of a knowledge base that holds a removed rule (the Deleted flag is not stored)
+// No known-finding region is left.  A removed rule stays removed across store+load since the fix of D8 (engine commit
+// 01c7ce8: BuildKnowledgeBase reads the Deleted flag off the tombstone name "Deleted_<uuid>"): the generated histories
+// store knowledge bases that hold removed rules, store and load them repeatedly and build the removed name again after
+// loading; the former witness of D8 is a fixed regression history that runs first and must pass.
 //
 // Builds are transactional since the fix of D10 (KnowledgeBase.Checkpoint, engine commit 4ed034e): a rejected resource
 // adds none of its rules and leaves no node in the working memory.  The generated duplicates therefore carry any
@@ -55,7 +55,6 @@ import (
 )
 
 const (
-	keyC16D8   = "D8-removed-rule-active-after-load"
 	c16MaxCycle = 40
 )
 
@@ -220,7 +219,6 @@ type C16Step struct {
 	Trace   *C16Trace  `json:"trace,omitempty"`
 	Lib     []C16Probe `json:"lib"`
 	Insts   [][]string `json:"insts"`
-	Safe    bool       `json:"safe"`
 }
 
 // ---- the shadow: what C16 says must be there ----
@@ -354,7 +352,7 @@ func (r *c16Runner) failf(step int, format string, a ...interface{}) {
 
 func (r *c16Runner) apply(op C16Op) {
 	si := len(r.steps)
-	st := C16Step{Op: op, Safe: true}
+	st := C16Step{Op: op}
 	name, ver := c16Keys[op.KB][0], c16Keys[op.KB][1]
 	sk := r.sh.kbs[op.KB]
 	switch op.Kind {
@@ -446,7 +444,7 @@ func (r *c16Runner) apply(op C16Op) {
 		}
 	case "storeload":
 		if sk != nil && sk.tombs > 0 {
-			st.Safe = false
+			r.stats["store/load of a knowledge base holding removed rules"]++
 		}
 		var buf bytes.Buffer
 		err := r.lib.StoreKnowledgeBaseToWriter(&buf, name, ver)
@@ -613,9 +611,6 @@ func (g *c16Gen) next(sh *shadow, nInsts int, nKeys int, i int) C16Op {
 			op = C16Op{Kind: "newinst", KB: p.intn(nKeys)}
 		case w < 86:
 			op = C16Op{Kind: "storeload", KB: p.intn(nKeys)}
-			if sk := sh.kbs[op.KB]; sk != nil && sk.tombs > 0 {
-				continue // region D8
-			}
 		default:
 			if nInsts == 0 {
 				continue
@@ -640,6 +635,19 @@ func (g *c16Gen) zapPattern(kb int) []C16Op {
 	}
 }
 
+// the pattern of the former finding D8: a removed rule crosses store+load twice, then its name is built again
+func (g *c16Gen) tombPattern(kb int) []C16Op {
+	a, b, c := g.sal(), g.sal(), g.sal()
+	return []C16Op{
+		{Kind: "build", KB: kb, Fact: 7, Rules: []C16Rule{{Name: "R2", Sal: a, Body: pick(g.p, c16Payloads)}, {Name: "R3", Sal: b, Body: pick(g.p, c16Payloads)}}},
+		{Kind: "removelib", KB: kb, Name: pick(g.p, []string{"R2", "R3"}), Fact: 7},
+		{Kind: "storeload", KB: kb, Fact: 7},
+		{Kind: "storeload", KB: kb, Fact: 5},
+		{Kind: "build", KB: kb, Fact: 7, Rules: []C16Rule{{Name: pick(g.p, []string{"R2", "R3"}), Sal: c, Body: pick(g.p, c16Payloads)}}},
+		{Kind: "newinst", KB: kb, Fact: 7},
+	}
+}
+
 func genAndRunC16(p *prng, rep *Report) *c16Runner {
 	r := newC16Runner()
 	r.strict = true
@@ -649,6 +657,11 @@ func genAndRunC16(p *prng, rep *Report) *c16Runner {
 	var pre []C16Op
 	if p.chance(1, 6) {
 		pre = g.zapPattern(p.intn(nKeys))
+	} else if p.chance(1, 6) {
+		pre = g.tombPattern(p.intn(nKeys))
+		if nOps < len(pre) {
+			nOps = len(pre)
+		}
 	}
 	for i := 0; i < nOps; i++ {
 		var op C16Op
@@ -755,8 +768,8 @@ func (s C16Step) gallina() string {
 	for _, i := range s.Insts {
 		insts = append(insts, gStrList(i))
 	}
-	return fmt.Sprintf("{| so_op := %s;\n   so_res := %s; so_fact := %s;\n   so_lib := %s;\n   so_insts := %s; so_safe := %s |}",
-		s.Op.gallina(), res, gZ(s.Op.Fact), gList(lib), gList(insts), gBool(s.Safe))
+	return fmt.Sprintf("{| so_op := %s;\n   so_res := %s; so_fact := %s;\n   so_lib := %s;\n   so_insts := %s |}",
+		s.Op.gallina(), res, gZ(s.Op.Fact), gList(lib), gList(insts))
 }
 
 func c16GallinaCase(id int, steps []C16Step) string {
@@ -767,28 +780,23 @@ func c16GallinaCase(id int, steps []C16Step) string {
 	return fmt.Sprintf("{| c16_id := %d; c16_fuel := %d%%nat; c16_steps := [\n  %s\n ] |}", id, c16MaxCycle+1, strings.Join(ss, ";\n  "))
 }
 
-// ---- fixed regression scenarios (known findings; run on every check) ----
-type c16Regression struct {
-	Key  string
-	Hist C16Hist
-}
-
-func c16Regressions() []c16Regression {
-	r0 := C16Rule{Name: "R0", Sal: 1, Body: c16Payloads[0]}
-	r1 := C16Rule{Name: "R1", Sal: 5, Body: c16Payloads[1]}
-	return []c16Regression{
-		// D8: remove, store, load: the removed rule is active again (under its tombstone name)
-		{keyC16D8, C16Hist{Ops: []C16Op{
-			{Kind: "build", KB: 0, Fact: 7, Rules: []C16Rule{r0, r1}},
-			{Kind: "removelib", KB: 0, Name: "R1", Fact: 7},
-			{Kind: "storeload", KB: 0, Fact: 7}}}},
-	}
-}
-
-// former witnesses of D10 (fixed by engine commit 4ed034e): they run first on every check and must pass
+// former witnesses of D8 (fixed by engine commit 01c7ce8) and D10 (4ed034e): they run first on every check and must pass
 func c16FixedRegressions() []C16Hist {
 	r0 := C16Rule{Name: "R0", Sal: 1, Body: c16Payloads[0]}
+	r1 := C16Rule{Name: "R1", Sal: 5, Body: c16Payloads[1]}
 	return []C16Hist{
+		// D8: remove, store, load: the removed rule stays removed, also after a second store+load, on instances created
+		// afterwards; its name is built again after loading and denotes the new rule; a third store+load keeps both facts
+		{Ops: []C16Op{
+			{Kind: "build", KB: 0, Fact: 7, Rules: []C16Rule{r0, r1}},
+			{Kind: "removelib", KB: 0, Name: "R1", Fact: 7},
+			{Kind: "storeload", KB: 0, Fact: 7},
+			{Kind: "newinst", KB: 0, Fact: 7},
+			{Kind: "storeload", KB: 0, Fact: 7},
+			{Kind: "build", KB: 0, Fact: 7, Rules: []C16Rule{{Name: "R1", Sal: 9, Body: c16Payloads[2]}}},
+			{Kind: "storeload", KB: 0, Fact: 7},
+			{Kind: "newinst", KB: 0, Fact: 5},
+			{Kind: "exec", Inst: 1, Fact: 7}}},
 		// D10a: a rejected duplicate with expressions of its own; instances must still be created, R0 (payload 0) stays in force
 		{Ops: []C16Op{
 			{Kind: "build", KB: 0, Fact: 7, Rules: []C16Rule{r0}},
@@ -834,14 +842,6 @@ func runC16Prop(seed uint64, tier string, out string) error {
 		index = append(index, c16CaseRec{Hist: h})
 		cases = append(cases, c16GallinaCase(id, r.steps))
 	}
-	for _, rg := range c16Regressions() {
-		r := runC16Hist(rg.Hist)
-		rep.Evaluations++
-		rep.count("regression scenarios")
-		if len(r.fails) > 0 {
-			rep.failKey(rg.Key, r.fails[0], c16CaseRec{Hist: rg.Hist})
-		}
-	}
 	for i := 0; i < n; i++ {
 		r := genAndRunC16(p.fork(), rep)
 		rep.Evaluations++
@@ -869,7 +869,7 @@ func runC16Prop(seed uint64, tier string, out string) error {
 	}
 	rep.Cases = len(cases)
 	rep.DistinctNontrivial = len(distinct)
-	rep.Rule = "random histories of 3-14 operations (build of 1-3 rules incl. duplicates inside a resource and of earlier resources with expressions new to the working memory (rejected resources are rolled back), library / instance removal, new instance, store+load, execute with actions that remove rules from the running instance) over 1-3 (name,version) keys, 4 rule names, 8 payloads, distinct saliences; after every step every key is probed through two fresh instances (Execute with listener, FetchMatchingRules) and every live instance through FetchMatchingRules; non-trivial = at least one rejected build and one removal that hit; distinct by history"
+	rep.Rule = "random histories of 3-14 operations (build of 1-3 rules incl. duplicates inside a resource and of earlier resources with expressions new to the working memory (rejected resources are rolled back), library / instance removal, new instance, store+load (also of knowledge bases holding removed rules, repeatedly, with the removed name built again afterwards), execute with actions that remove rules from the running instance) over 1-3 (name,version) keys, 4 rule names, 8 payloads, distinct saliences; after every step every key is probed through two fresh instances (Execute with listener, FetchMatchingRules) and every live instance through FetchMatchingRules; non-trivial = at least one rejected build and one removal that hit; distinct by history"
 	if err := writeShards(out, "From Grule Require Import Base EngineGen EngineAbs Library CorrLibrary.", "c16_mismatches", "c16_case", cases, 16); err != nil {
 		return err
 	}
